@@ -12,15 +12,20 @@
                       3  a/10 > b/10
 
    input, mode 0 (a history):   0 :: ty :: c0 :: c1 :: ops
-       ty in {0 (int), 1 (struct)}; h0 = NewHeap(c0), h1 = NewHeap(c1)
+       ty in {0 (int), 1 (struct)}; h0 = NewHeap(c0), h1 = NewHeap(c1), h2 = NewHeap(c1)
+       THREE heap variables: every operation acts on h0, h1 is the argument of
+       Merge/Meld, h2 receives the receiver of the last Merge/Meld — so the result,
+       the argument and the receiver all stay alive and are observed again later
+       (that is how storage shared between them shows up).
        ops, variable width:
          1 x  Push(x)       2 Pop          3 Peek        4 Clear       5 c  Convert(c)
          6 x  Delete(x)     7 Size         8 IsEmpty     9 GetValues
         10 c n x1..xn  h0 = FromSlice([x1..xn], c)
-        11 Merge  (t = h0.Merge(h1); observe h0, h1; h0 = t)
-        12 Meld   (t = h0.Meld(h1);  observe h0, h1; h0 = t)
+        11 Merge  (t = h0.Merge(h1); observe h0, h1; h2 = h0; h0 = t)
+        12 Meld   (t = h0.Meld(h1);  observe h0, h1; h2 = h0; h0 = t)
         13 Swap   (h0, h1 = h1, h0)
         14 n x1..xn  Push(x1, ..., xn)
+        15 Swap2  (h0, h2 = h2, h0)
    observation: per operation  0 :: payload ++ [h0.Size()]   — or [2] (panic) / [3] (hang), and
        nothing after it; payloads: Pop/Peek [v]; Delete [ok; err != nil]; Size [n];
        IsEmpty [b]; GetValues  enc_zs (sorted values); Merge/Meld  enc_zs (sorted h0)
@@ -28,10 +33,20 @@
      then the end of the case:
        0 :: enc_zs (values popped from h0 while !IsEmpty, at most Size()+8) ++ [h0.IsEmpty()]
        0 :: the same for h1
-       [h0.Size(); h1.Size(); h0.Pop(); h0.Peek()]          (both heaps empty: zero values)
+       0 :: the same for h2
+       [h0.Size(); h1.Size(); h2.Size(); h0.Pop(); h0.Peek()]      (all heaps empty: zero values)
 
    input, mode 1 (heapsort):    1 :: ty :: c :: n :: x1..xn
-   observation:                 0 :: enc_zs (Sort([x1..xn], c))   — or [2] / [3]        *)
+   observation:                 0 :: enc_zs (Sort([x1..xn], c))   — or [2] / [3]
+
+   modes 2 and 3 ("spec only", the LARGE inputs: heaps and slices of hundreds to
+   thousands of elements): the same inputs and observations as modes 0 and 1, but
+   the list model — O(n) per array access, unary indices — is NOT run on them:
+   [c03_run] answers [not_modelled] and [c03_agree] IS [c03_holds], i.e. the
+   observation is judged against the specification alone (the reference multiset
+   machine / sorted-permutation check, linear per operation).  A failure in these
+   modes can never be attributed to the known finding, so the generator keeps
+   histories with inner Deletes in mode 0.                                         *)
 
 From Gogu Require Import Base C03_Model.
 Local Open Scope Z_scope.
@@ -85,6 +100,7 @@ Fixpoint dec_ops (fuel : nat) (w : list Z) : option (list zop) :=
             | Some (l, w2) => one (OPush l) w2
             | None => None
             end
+          else if code =? 15 then one OSwap2 w1
           else None
       end
   end.
@@ -129,33 +145,44 @@ Fixpoint run_enc (s : zstate) (ops : list zop) : list Z * option zstate :=
       if is_fail r then (fail_code r, None)
       else
         let (w, sf) := run_enc s' ops' in
-        (0 :: enc_payload r ++ [Z.of_nat (size (fst s'))] ++ w, sf)
+        (0 :: enc_payload r ++ [Z.of_nat (size (fst (fst s')))] ++ w, sf)
   end.
 
 Definition enc_fail {X} (r : res X) : list Z :=
   match r with Panic => [2] | _ => [3] end.
 
-(* end of case: drain h0, drain h1, sizes, Pop and Peek on the emptied h0 *)
+(* end of case: drain h0, h1, h2 in this order, the three sizes, Pop and Peek on
+   the emptied h0.  A failure (panic / out of fuel) ends the observation. *)
+Definition enc_drained (l : list Z) (h : heap (A := Z)) : list Z :=
+  0 :: enc_zs l ++ enc_bool (is_empty h).
+
 Definition run_end (s : zstate) : list Z :=
-  let (h0, h1) := s in
+  let '(h0, h1, h2) := s in
   match drain 0 (size h0 + 8) h0 with
   | Ok (l0, h0') =>
+      enc_drained l0 h0' ++
       match drain 0 (size h1 + 8) h1 with
       | Ok (l1, h1') =>
-          match pop 0 h0', peek 0 h0' with
-          | Ok (v, _), Ok p =>
-              0 :: enc_zs l0 ++ enc_bool (is_empty h0') ++
-              0 :: enc_zs l1 ++ enc_bool (is_empty h1') ++
-              [Z.of_nat (size h0'); Z.of_nat (size h1'); v; p]
-          | _, _ => 0 :: enc_zs l0 ++ enc_bool (is_empty h0') ++
-                    0 :: enc_zs l1 ++ enc_bool (is_empty h1') ++ [2]
+          enc_drained l1 h1' ++
+          match drain 0 (size h2 + 8) h2 with
+          | Ok (l2, h2') =>
+              enc_drained l2 h2' ++
+              match pop 0 h0', peek 0 h0' with
+              | Ok (v, _), Ok p =>
+                  [Z.of_nat (size h0'); Z.of_nat (size h1'); Z.of_nat (size h2'); v; p]
+              | _, _ => [2]
+              end
+          | r => enc_fail r
           end
-      | r => 0 :: enc_zs l0 ++ enc_bool (is_empty h0') ++ enc_fail r
+      | r => enc_fail r
       end
   | r => enc_fail r
   end.
 
 Definition valid_ty (ty : Z) : bool := (ty =? 0) || (ty =? 1).
+
+(* the model's "observation" for the spec-only modes 2 and 3 *)
+Definition not_modelled : list Z := [-777777].
 
 Definition c03_run (w : list Z) : list Z :=
   match w with
@@ -163,7 +190,7 @@ Definition c03_run (w : list Z) : list Z :=
       if valid_ty ty then
         match dec_ops (length wops) wops with
         | Some ops =>
-            let s0 : zstate := (new_heap (cmp_of c0), new_heap (cmp_of c1)) in
+            let s0 : zstate := (new_heap (cmp_of c0), new_heap (cmp_of c1), new_heap (cmp_of c1)) in
             match run_enc s0 ops with
             | (enc, Some sf) => enc ++ run_end sf
             | (enc, None) => enc
@@ -182,12 +209,9 @@ Definition c03_run (w : list Z) : list Z :=
         | _ => wire_error
         end
       else wire_error
+  | 2 :: _ | 3 :: _ => not_modelled
   | _ => wire_error
   end.
-
-(* the implementation is deterministic and the model mirrors its tie-breaking:
-   agreement is equality of the projected observations *)
-Definition c03_agree (w obs : list Z) : bool := zlist_eqb obs (c03_run w).
 
 (* ---------- the property checker: the observation against the SPEC ---------- *)
 
@@ -200,16 +224,14 @@ Definition rd_bool01 : reader bool := fun w =>
   | [] => None
   end.
 
-Definition rd_natz : reader nat := fun w =>
-  match w with
-  | x :: w' => if 0 <=? x then Some (Z.to_nat x, w') else None
-  | [] => None
-  end.
+(* a size: 0 .. 100000 ([rd_len] of Base.v; a larger or negative number is a
+   malformed observation and never reaches [Z.to_nat]) *)
+Definition rd_natz : reader nat := rd_len.
 
 (* payload reader, guided by the operation *)
 Definition rd_payload (o : zop) : reader zout := fun w =>
   match o with
-  | OPush _ | OClear | OConvert _ | OFromSlice _ _ | OSwap => Some (RUnit, w)
+  | OPush _ | OClear | OConvert _ | OFromSlice _ _ | OSwap | OSwap2 => Some (RUnit, w)
   | OPop | OPeek => match rd_z w with Some (v, w') => Some (RVal v, w') | None => None end
   | ODelete _ =>
       match rd_bool01 w with
@@ -273,19 +295,31 @@ Definition rd_drain : reader (list (zop * zout)) := fun w =>
   | None => None
   end.
 
+(* h0 drained; bring h1 to the front, drain it; bring h2 to the front, drain it;
+   then the three sizes, Pop and Peek on the (empty) h0 *)
 Definition rd_end : reader (list (zop * zout)) := fun w =>
   match rd_drain w with
   | Some (t0, w1) =>
       match rd_drain w1 with
       | Some (t1, w2) =>
-          match w2 with
-          | [n0; n1; v; p] =>
-              if (0 <=? n0) && (0 <=? n1) then
-                Some (t0 ++ [(OSwap, RUnit)] ++ t1 ++
-                      [(OSize, RNat (Z.to_nat n1)); (OSwap, RUnit); (OSize, RNat (Z.to_nat n0));
-                       (OPop, RVal v); (OPeek, RVal p)], [])
-              else None
-          | _ => None
+          match rd_drain w2 with
+          | Some (t2, w3) =>
+              match rd_natz w3 with
+              | Some (n0, w4) =>
+                  match rd_natz w4 with
+                  | Some (n1, w5) =>
+                      match rd_natz w5 with
+                      | Some (n2, [v; p]) =>
+                          Some (t0 ++ [(OSwap, RUnit)] ++ t1 ++ [(OSize, RNat n1); (OSwap, RUnit)] ++
+                                [(OSwap2, RUnit)] ++ t2 ++ [(OSize, RNat n2); (OSwap2, RUnit)] ++
+                                [(OSize, RNat n0); (OPop, RVal v); (OPeek, RVal p)], [])
+                      | _ => None
+                      end
+                  | None => None
+                  end
+              | None => None
+              end
+          | None => None
           end
       | None => None
       end
@@ -295,37 +329,63 @@ Definition rd_end : reader (list (zop * zout)) := fun w =>
 (* The property on one observation: the whole trace (history, then the final
    drains) is accepted by the reference multiset machine with the order
    requirement on.  Any panic, hang, malformed or truncated observation fails. *)
-Definition c03_holds (w obs : list Z) : bool :=
-  match w with
-  | 0 :: ty :: c0 :: c1 :: wops =>
-      if valid_ty ty then
-        match dec_ops (length wops) wops with
-        | Some ops =>
-            match rd_trace ops obs with
-            | Some (tr, rest) =>
-                match rd_end rest with
-                | Some (tre, []) =>
-                    accepts 0 Z.eqb true (mkS [] (cmp_of c0), mkS [] (cmp_of c1)) (tr ++ tre)
-                | _ => false
-                end
-            | None => false
+Definition hist_holds (ty c0 c1 : Z) (wops obs : list Z) : bool :=
+  if valid_ty ty then
+    match dec_ops (length wops) wops with
+    | Some ops =>
+        match rd_trace ops obs with
+        | Some (tr, rest) =>
+            match rd_end rest with
+            | Some (tre, []) =>
+                accepts 0 Z.eqb true (mkS [] (cmp_of c0), mkS [] (cmp_of c1), mkS [] (cmp_of c1)) (tr ++ tre)
+            | _ => false
             end
         | None => false
         end
-      else false
-  | 1 :: ty :: c :: wl =>
-      if valid_ty ty then
-        match rd_zs wl with
-        | Some (l, []) =>
-            match obs with
-            | 0 :: o1 => match rd_zs o1 with
-                         | Some (r, []) => sort_ok Z.eqb (cmp_of c) l r
-                         | _ => false
-                         end
-            | _ => false
-            end
+    | None => false
+    end
+  else false.
+
+(* the sortedness half of [sort_ok] decided on ADJACENT elements only — linear
+   instead of quadratic; for a strict weak order it is the same predicate
+   (C03_Props.C03_wire_sort_judge) *)
+Fixpoint sorted_adj (c : Z -> Z -> bool) (l : list Z) : bool :=
+  match l with
+  | x :: ((y :: _) as t) => negb (c x y) && sorted_adj c t
+  | _ => true
+  end.
+Definition sort_ok_fast (c : Z -> Z -> bool) (input result : list Z) : bool :=
+  ms_eqb Z.eqb result input && sorted_adj c result.
+
+Definition sort_holds (ty c : Z) (wl obs : list Z) : bool :=
+  if valid_ty ty then
+    match rd_zs wl with
+    | Some (l, []) =>
+        match obs with
+        | 0 :: o1 => match rd_zs o1 with
+                     | Some (r, []) => sort_ok_fast (cmp_of c) l r
+                     | _ => false
+                     end
         | _ => false
         end
-      else false
+    | _ => false
+    end
+  else false.
+
+Definition c03_holds (w obs : list Z) : bool :=
+  match w with
+  | 0 :: ty :: c0 :: c1 :: wops => hist_holds ty c0 c1 wops obs
+  | 2 :: ty :: c0 :: c1 :: wops => hist_holds ty c0 c1 wops obs
+  | 1 :: ty :: c :: wl => sort_holds ty c wl obs
+  | 3 :: ty :: c :: wl => sort_holds ty c wl obs
   | _ => false
+  end.
+
+(* the implementation is deterministic and the model mirrors its tie-breaking:
+   agreement is equality of the projected observations (modes 0, 1); in the
+   spec-only modes the specification judges alone *)
+Definition c03_agree (w obs : list Z) : bool :=
+  match w with
+  | 2 :: _ | 3 :: _ => c03_holds w obs
+  | _ => zlist_eqb obs (c03_run w)
   end.
